@@ -110,7 +110,14 @@ func generate(prop, tier string, rng *Rng) []Case {
 	case "C08":
 		return genC08(tier, rng)
 	case "C15":
-		return append(genRangeUnit(tier), genC15Hist(tier, rng)...)
+		cs := append(genRangeUnit(tier), genC15Hist(tier, rng)...)
+		// byte ranges on a rule with recompression and a cache (the aecache family): the sequences that contain a Range
+		for _, c := range genAeCache(tier, rng) {
+			if ac, ok := c.(aeCase); ok && len(ac.Ranges) == len(ac.AEs) {
+				cs = append(cs, c)
+			}
+		}
+		return cs
 	case "C06":
 		return append(append(genRecompUnit(), genRecompE2E(tier, rng)...), genAeCache(tier, rng)...)
 	case "C07":
